@@ -204,6 +204,10 @@ async def _run(sc: dict, holder: dict | None = None) -> dict:
             state["fail_writes"] -= 1
             R.rec(e="WriteFail")
             raise exc.TransportError("injected write failure")
+        if state.get("fail_writes_os", 0) > 0:    # a failure the transport did not wrap (OSError from the port)
+            state["fail_writes_os"] -= 1
+            R.rec(e="WriteFail")
+            raise OSError(5, "injected write failure (not wrapped by the transport)")
         return await real_write(frame, disable_tx_limits)
 
     tr.write_frame = write_frame  # type: ignore[method-assign]
@@ -301,6 +305,8 @@ async def _run(sc: dict, holder: dict | None = None) -> dict:
             proto.resume_writing()
         elif ev == "fail_write":
             state["fail_writes"] += 1
+        elif ev == "fail_write_os":
+            state["fail_writes_os"] = state.get("fail_writes_os", 0) + 1
         elif ev == "foreign":
             i = e.get("of", 0)
             what = e.get("what", "echo")
